@@ -538,3 +538,38 @@ def event_fields(prog):
     if set(out) != set(["event", "data", "exception"]) or len(set(out.values())) != 3:
         raise AnalysisError("anchor vanished: the event / data / exception fields of EventData (found %s)" % sorted(out.items()))
     return out
+
+
+def check_config_forwarding(ck, rule):
+    """Every constructor of the package that receives a `config` hands that very object to each package constructor it
+    calls which also takes a `config` (base-class __init__ spelled Base.__init__(self, ...), super().__init__(...), or an
+    instantiation Class(...)): otherwise the object silently runs with the shared DEFAULT configuration."""
+    prog = ck.prog
+    n = 0
+    for fi in prog.funcs.values():
+        if fi.name != "__init__" or "config" not in fi.params or fi.cls is None:
+            continue
+        g = cfg_of(fi)
+        for (node, c) in [(node, c) for node in g.live_nodes() for c in node_calls(node)]:
+            r = prog.resolve_call(fi, c)
+            callee = None
+            explicit_self = False
+            if isinstance(r, FuncInfo) and r.name == "__init__" and r.fq != fi.fq:
+                callee = r
+                explicit_self = not (isinstance(c.func, ast.Attribute) and isinstance(c.func.value, ast.Call))   # Base.__init__(self, ...)
+            elif isinstance(r, str) and r.startswith("class:") and r[6:] in prog.classes:
+                callee = prog.mro_lookup(prog.classes[r[6:]], "__init__")
+            if callee is None or "config" not in callee.params or callee.module == "config":
+                continue
+            if any(isinstance(a, ast.Starred) for a in c.args) or any(k.arg is None for k in c.keywords):
+                continue      # *args / **kwargs forwarding: not decided here
+            pos = callee.params.index("config") - (0 if explicit_self else 1)
+            e = kwarg(c, "config", pos)
+            n += 1
+            t = prov.origin(g, node, e) if e is not None else None
+            okk = t is not None and all(a == ("param", "config") for a in prov.value_alts(t))
+            ck.require(okk, rule, "%s: config handed to %s" % (q.fn(fi), q.fn(callee)), "Param(config) itself",
+                       "%s is given %s as configuration by %s: the caller's Config is dropped and the object runs with the shared "
+                       "DEFAULT configuration (class translation, version, content type of the caller are ignored)"
+                       % (q.fn(callee), prov.show(t) if t is not None else "no config", q.fn(fi)), q.loc(fi, node))
+    return n
